@@ -875,6 +875,8 @@ package tds
 //@ # channel was a DONE with final status; $rxfail = some NextPackage call failed.
 //@ ghost field Channel.$lastFinal bool
 //@ ghost field Channel.$rxfail bool
+//@ # $waitctx = the context the most recent NextPackage call on this channel waited on (C13)
+//@ ghost field Channel.$waitctx int
 //@ # reply script (C08): the i-th package NextPackage handed out on this channel had Go type
 //@ # tag $rxtag[i] and, for LOGINACK / DONE / MSG, the status or message id $rxst[i]
 //@ ghost field Channel.$rxn int
@@ -883,7 +885,7 @@ package tds
 //@ pred pkgstatus(p Package) { is(p, *LoginAckPackage) ? as(p, *LoginAckPackage).Status : (is(p, *DonePackage) ? as(p, *DonePackage).Status : (is(p, *MsgPackage) ? as(p, *MsgPackage).MsgId : 0)) }
 //@ func (*Channel).NextPackage returns (pkg, err)
 //@   ensures [closed-reported] old(tdsChan.closed) ==> tag(pkg) == 0 && err != nil && errIs(err, ErrChannelClosed)
-//@   modifies tdsChan.$lastFinal, tdsChan.$rxfail, tdsChan.$rxn, tdsChan.$rxtag, tdsChan.$rxst
+//@   modifies tdsChan.$lastFinal, tdsChan.$rxfail, tdsChan.$rxn, tdsChan.$rxtag, tdsChan.$rxst, tdsChan.$waitctx
 //@   ghost-update at exit: tdsChan.$rxtag := err == nil ? store(tdsChan.$rxtag, tdsChan.$rxn, tag(pkg)) : tdsChan.$rxtag
 //@   ghost-update at exit: tdsChan.$rxst := err == nil ? store(tdsChan.$rxst, tdsChan.$rxn, pkgstatus(pkg)) : tdsChan.$rxst
 //@   ghost-update at exit: tdsChan.$rxn := err == nil ? tdsChan.$rxn + 1 : tdsChan.$rxn
@@ -895,18 +897,32 @@ package tds
 //@   ghost-update at exit: tdsChan.$rxfail := tdsChan.$rxfail || err != nil
 //@   ensures [last-final] err == nil ==> tdsChan.$lastFinal == (is(pkg, *DonePackage) && as(pkg, *DonePackage).Status == 0)
 //@   ensures [rxfail] tdsChan.$rxfail == (old(tdsChan.$rxfail) || err != nil)
+//@   ghost-update at exit: tdsChan.$waitctx := payload(ctx)
+//@   ensures [waits-on-given-context] tdsChan.$waitctx == payload(ctx)
 //@ func isDoneFinal returns (r, err)
 //@   modifies
 //@   ensures [exact] err == nil && r == (is(pkg, *DonePackage) && as(pkg, *DonePackage).Status == 0)
 //@ # the consumer's callback cannot reach unexported library state
-//@ func paramfunc:(*Channel).NextPackageUntil.processPkg returns (ok, err)
+//@ func paramfunc:(*Channel).NextPackageUntil.processPkg params (pkg) returns (ok, err)
 //@   modifies
-//@ func (*Channel).NextPackageUntil returns (pkg, err)
+//@   # the library's own drain filter (the function literal in NextPackageUntil, verified against
+//@   # the same clause under its own name below) accepts exactly a DONE with final status
+//@   ensures [drain-filter] fnis(self, (*tds.Channel).NextPackageUntil$1) ==> err == nil && ok == (is(pkg, *DonePackage) && as(pkg, *DonePackage).Status == 0)
+//@ func (*Channel).NextPackageUntil$1 returns (ok, err)
+//@   modifies
+//@   ensures [drain-filter] err == nil && ok == (is(pkg, *DonePackage) && as(pkg, *DonePackage).Status == 0)
+//@ func (*Channel).NextPackageUntil returns (pkg, err) per-return
 //@   requires [script] 0 <= tdsChan.$rxn
-//@   modifies tdsChan.$lastFinal, tdsChan.$rxfail, tdsChan.$rxn, tdsChan.$rxtag, tdsChan.$rxst
+//@   modifies tdsChan.$lastFinal, tdsChan.$rxfail, tdsChan.$rxn, tdsChan.$rxtag, tdsChan.$rxst, tdsChan.$waitctx
 //@   ensures [script-grows] old(tdsChan.$rxn) <= tdsChan.$rxn && (forall i int :: 0 <= i && i < old(tdsChan.$rxn) ==> tdsChan.$rxtag[i] == old(tdsChan.$rxtag[i]) && tdsChan.$rxst[i] == old(tdsChan.$rxst[i]))
 //@   ensures [returns-last-of-script] err == nil && processPkg != nil ==> tdsChan.$rxn > old(tdsChan.$rxn) && tdsChan.$rxtag[tdsChan.$rxn - 1] == tag(pkg) && tdsChan.$rxst[tdsChan.$rxn - 1] == pkgstatus(pkg)
 //@   ensures [returns-last-received] err == nil && processPkg != nil ==> tdsChan.$lastFinal == (is(pkg, *DonePackage) && as(pkg, *DonePackage).Status == 0)
+//@   ensures [drain-ends-at-final-done] err == nil && fnis(processPkg, (*tds.Channel).NextPackageUntil$1) ==> tdsChan.$lastFinal
+//@   ensures [drain-fails-only-on-receive-failure] err != nil && fnis(processPkg, (*tds.Channel).NextPackageUntil$1) ==> tdsChan.$rxfail
+//@   ensures [drained-when-callback-fails] err != nil && err != io.EOF ==> tdsChan.$lastFinal || tdsChan.$rxfail
+//@   ensures [drained-without-callback] processPkg == nil ==> tdsChan.$lastFinal || tdsChan.$rxfail
+//@   # every receive of this call, the drains included, waits on the caller's context
+//@   ensures [waits-on-callers-context] tdsChan.$waitctx == payload(ctx)
 
 //@ # ---------------------------------------------------------------------
 //@ # Login (C08): success only for a valid acceptance script
